@@ -2,22 +2,22 @@
 #define REG_PROMISE(p) gh_INSTANCE = (void *)AW_INSTANCE; gh_DISABLED = (void *)AW_DISABLED; PROM *p = malloc(sizeof(PROM)); __CPROVER_assume(p != 0); gh_P_cell = P_CELL(p)
 #define REG_FUTURE(f)  FUT *f = malloc(sizeof(FUT)); __CPROVER_assume(f != 0); gh_F_fut = f; gh_F_slot = F_SLOT(f)
 #ifdef CV_HAS_pr_claim
-void h_claim(void) { REG_PROMISE(p); FUT *f = malloc(sizeof(FUT)); gh_F_fut = f; gh_F_slot = 0; pr_claim(p); __CPROVER_assert(0, "SENTINEL reachable"); }
+void h_claim(void) { REG_PROMISE(p); FUT *f = malloc(sizeof(FUT)); gh_F_fut = f; gh_F_slot = 0; FUT *r = pr_claim(p); if (r) __CPROVER_assert(0, "SENTINEL reachable: claim won"); else __CPROVER_assert(0, "SENTINEL reachable: claim lost"); }
 #endif
 #ifdef CV_HAS_pr_set_value
-void h_set_value(void) { REG_PROMISE(p); REG_FUTURE(f); SPB *a; cv_i32 *v; pr_set_value(a, p, v); __CPROVER_assert(0, "SENTINEL reachable"); }
+void h_set_value(void) { REG_PROMISE(p); REG_FUTURE(f); SPB *a; cv_i32 *v; pr_set_value(a, p, v); if (gh_resolved_by_me) __CPROVER_assert(0, "SENTINEL reachable: this call won"); else __CPROVER_assert(0, "SENTINEL reachable: this call lost"); }
 #endif
 #ifdef CV_HAS_pr_call_value
-void h_call_value(void) { REG_PROMISE(p); REG_FUTURE(f); SPB *a; cv_i32 *v; pr_call_value(a, p, v); __CPROVER_assert(0, "SENTINEL reachable"); }
+void h_call_value(void) { REG_PROMISE(p); REG_FUTURE(f); SPB *a; cv_i32 *v; pr_call_value(a, p, v); if (gh_resolved_by_me) __CPROVER_assert(0, "SENTINEL reachable: this call won"); else __CPROVER_assert(0, "SENTINEL reachable: this call lost"); }
 #endif
 #ifdef CV_HAS_pr_set_drop
-void h_set_drop(void) { REG_PROMISE(p); REG_FUTURE(f); SPB *a; cv_i32 t; pr_set_drop(a, p, t); __CPROVER_assert(0, "SENTINEL reachable"); }
+void h_set_drop(void) { REG_PROMISE(p); REG_FUTURE(f); SPB *a; cv_i32 t; pr_set_drop(a, p, t); if (gh_resolved_by_me) __CPROVER_assert(0, "SENTINEL reachable: this call won"); else __CPROVER_assert(0, "SENTINEL reachable: this call lost"); }
 #endif
 #ifdef CV_HAS_pr_set_exc
-void h_set_exc(void) { REG_PROMISE(p); REG_FUTURE(f); SPB *a; EPTR *e; pr_set_exc(a, p, e); __CPROVER_assert(0, "SENTINEL reachable"); }
+void h_set_exc(void) { REG_PROMISE(p); REG_FUTURE(f); SPB *a; EPTR *e; pr_set_exc(a, p, e); if (gh_resolved_by_me) __CPROVER_assert(0, "SENTINEL reachable: this call won"); else __CPROVER_assert(0, "SENTINEL reachable: this call lost"); }
 #endif
 #ifdef CV_HAS_pr_dtor
-void h_dtor(void) { REG_PROMISE(p); REG_FUTURE(f); pr_dtor(p); __CPROVER_assert(0, "SENTINEL reachable"); }
+void h_dtor(void) { REG_PROMISE(p); REG_FUTURE(f); pr_dtor(p); if (gh_resolved_by_me) __CPROVER_assert(0, "SENTINEL reachable: armed promise destroyed"); else __CPROVER_assert(0, "SENTINEL reachable: disarmed promise destroyed"); }
 #endif
 #ifdef CV_HAS_pr_move_ctor
 void h_move_ctor(void) { REG_PROMISE(o); FUT *f = malloc(sizeof(FUT)); gh_F_fut = f; gh_F_slot = 0; PROM *n; pr_move_ctor(n, o); __CPROVER_assert(0, "SENTINEL reachable"); }
